@@ -48,7 +48,15 @@ type spec struct {
 	pk, pa     int // predicate kind (0 immutable, 1 temporal) and anchor index
 	ok         int // object kind: 0 node, 1 text literal, 2 immutable predicate (only with OBJPRED=1), 3 temporal predicate anchored at anchorPool[oa]
 	oa         int
+	st, ot     byte // type letter of the subject / of a node object: /<st><sb>; zero stands for 't'
 	t          *triple.Triple
+}
+
+func tyOf(b byte) byte {
+	if b == 0 {
+		return 't'
+	}
+	return b
 }
 
 func alpha(c byte) bool { return verif.Or(c == 'a', c == 'b') }
@@ -77,8 +85,10 @@ func symTripleKinds(name string, pk, pa, ok int) *spec {
 	return sp
 }
 
-func mkNode(id byte) *node.Node {
-	n, err := node.NewNodeFromStrings("/t", string([]byte{id}))
+func mkNode(id byte) *node.Node { return mkNodeT('t', id) }
+
+func mkNodeT(ty, id byte) *node.Node {
+	n, err := node.NewNodeFromStrings("/"+string([]byte{ty}), string([]byte{id}))
 	if err != nil {
 		panic(err)
 	}
@@ -117,7 +127,11 @@ func mkObject(kind int, b byte, oa int) *triple.Object {
 }
 
 func (sp *spec) build() *triple.Triple {
-	t, err := triple.New(mkNode(sp.sb), mkPredicate(sp.pb, sp.pk, sp.pa), mkObject(sp.ok, sp.ob, sp.oa))
+	o := mkObject(sp.ok, sp.ob, sp.oa)
+	if sp.ok == 0 {
+		o = triple.NewNodeObject(mkNodeT(tyOf(sp.ot), sp.ob))
+	}
+	t, err := triple.New(mkNodeT(tyOf(sp.st), sp.sb), mkPredicate(sp.pb, sp.pk, sp.pa), o)
 	if err != nil {
 		panic(err)
 	}
@@ -136,7 +150,14 @@ func (sp *spec) eq(o *spec) bool {
 	if sp.ok == 3 && !sameInstant(sp.oa, o.oa) {
 		return false
 	}
-	return verif.And(sp.sb == o.sb, verif.And(sp.pb == o.pb, sp.ob == o.ob))
+	r := verif.And(sp.sb == o.sb, verif.And(sp.pb == o.pb, sp.ob == o.ob))
+	if sp.st != 0 || o.st != 0 || sp.ot != 0 || o.ot != 0 {
+		r = verif.And(r, tyOf(sp.st) == tyOf(o.st))
+		if sp.ok == 0 {
+			r = verif.And(r, tyOf(sp.ot) == tyOf(o.ot))
+		}
+	}
+	return r
 }
 
 func anyEq(x *spec, batch []*spec) bool {
